@@ -129,7 +129,7 @@ def run_one(job):
 
 def _js(m):
     return {k: (v if isinstance(v, (int, float, str, bool, list, type(None))) else repr(v)[:200]) for k, v in (m or {}).items()
-            if k != 'strong'}
+            if k not in ('strong', 'margin')}
 
 
 if __name__ == '__main__':
